@@ -618,7 +618,7 @@ theorem parseSuites_none (suites : List Suite) : parseSuites suites = none ↔ R
       exact ⟨fun hx => ⟨this, hx⟩, fun hx => hx.2⟩
 
 theorem pathJoin_cons_empty (l : List String) : pathJoin ("" :: l) = pathJoin l := by
-  unfold pathJoin
+  unfold pathJoin pathJoinL
   simp
 
 /-! ### gRPC reference peers -/
